@@ -368,6 +368,10 @@ class FnEmitter:
             # clauses that are assumed about the callee but cannot be proved in its own unit
             # (they only name the function's own result: "pure function" assumptions)
             sigblock = sigblock + block_text('sig-stub-extra')
+        else:
+            # clauses proved in the function's own unit that callers do not need (not exported to stubs,
+            # so that units which only call the function need not include the vocabulary they use)
+            sigblock = sigblock + block_text('sig-prove-extra')
         edits.append((toks[bopen].start, toks[bopen].start, ('\n', sigblock, ''), 'block'))
 
         if self.mode == 'stub':
